@@ -44,6 +44,8 @@ fn execute(t: &Value, req: &str, cfg: &str, drop_early: bool) -> Vec<Value> {
             match catch(|| $e) {
                 Ok(v) => v,
                 Err(msg) => {
+                    // a completed future that is polled again panics (scripted leaves, `async fn`, `Ready`): one message
+                    let msg = if msg.contains("after completion") { "poll after completion".to_string() } else { msg };
                     log.push(round($ph, $w, res("panic", &msg)));
                     return log;
                 }
